@@ -1083,6 +1083,17 @@ fn run_mixed(drv: &mut Driver, case: &Value, s: &mut Summary, bin: &Path, root: 
   let mut twin = Twin { dir: tdir.clone(), schema: schema.clone(), index: None, writer: None, failed: false };
   let mut script: Vec<Value> = Vec::new();
   let mut server: Option<Server> = None;
+  // what the front end said last (HTTP status and body, or the CLI's first stderr line): goes
+  // into the observation of a failure, so that a replay file shows why an operation failed
+  let note = std::cell::RefCell::new(String::new());
+  let http_ok = |port: u16, r: Resp| -> bool {
+    *note.borrow_mut() = format!("port {port}: HTTP {:?} ({}) {}", r.status, r.end, r.body_text());
+    r.status == Some(200)
+  };
+  let cli_ok = |o: CliOut| -> bool {
+    *note.borrow_mut() = format!("cli exit ok={} stderr: {}", o.ok, o.stderr);
+    o.ok
+  };
   let cfg = ServerCfg { refresh_on_commit: refresh, ..Default::default() };
   let plan_of = |k: usize| -> (String, bool) {
     match case["mixed"]["ops"].get(k) {
@@ -1119,12 +1130,12 @@ fn run_mixed(drv: &mut Driver, case: &Value, s: &mut Summary, bin: &Path, root: 
   let init_op = if init_http { json!({"kind":"http_init"}) } else { json!({"kind":"cli_init"}) };
   let init_ok = if init_http {
     let port = ensure_server!(false);
-    post_json(port, "/init", schema_json).status == Some(200)
+    http_ok(port, post_json(port, "/init", schema_json))
   } else {
-    cli(bin, &["init", &fdir_s, &schema_file.to_string_lossy()]).ok
+    cli_ok(cli(bin, &["init", &fdir_s, &schema_file.to_string_lossy()]))
   };
   if !init_ok || twin.exec(&native_denote(&init_op)).is_err() {
-    s.fail("init.mixed", "initialising the shared index failed", case, json!({"front_ok": init_ok}));
+    s.fail("init.mixed", "initialising the shared index failed", case, json!({"front_ok": init_ok, "front_said": note.borrow().clone()}));
     return;
   }
   script.push(init_op);
@@ -1159,16 +1170,16 @@ fn run_mixed(drv: &mut Driver, case: &Value, s: &mut Summary, bin: &Path, root: 
           let f = root.join(format!("mixed-docs-{k}.jsonl"));
           let txt: String = raw_docs.iter().map(|d| format!("{d}\n")).collect();
           std::fs::write(&f, txt).unwrap();
-          cli(bin, &[if kind == "cli_add" { "add" } else { "update" }, &fdir_s, &f.to_string_lossy()]).ok
+          cli_ok(cli(bin, &[if kind == "cli_add" { "add" } else { "update" }, &fdir_s, &f.to_string_lossy()]))
         }
         "cli_delete" => {
           let f = root.join(format!("mixed-ids-{k}.txt"));
           let txt: String = fop["ids"].as_array().unwrap().iter().map(|d| format!("{}\n", d.as_str().unwrap_or(""))).collect();
           std::fs::write(&f, txt).unwrap();
-          cli(bin, &["delete", &fdir_s, &f.to_string_lossy()]).ok
+          cli_ok(cli(bin, &["delete", &fdir_s, &f.to_string_lossy()]))
         }
-        "cli_commit" => cli(bin, &["commit", &fdir_s]).ok,
-        "cli_compact" => cli(bin, &["compact", &fdir_s]).ok,
+        "cli_commit" => cli_ok(cli(bin, &["commit", &fdir_s])),
+        "cli_compact" => cli_ok(cli(bin, &["compact", &fdir_s])),
         "ffi_add" => {
           let js = CString::new(fop["doc"]["doc"].to_string()).unwrap();
           unsafe { searchlite_add_json(handle.as_ref().unwrap().0, js.as_ptr(), js.as_bytes().len()) >= 0 }
@@ -1178,12 +1189,12 @@ fn run_mixed(drv: &mut Driver, case: &Value, s: &mut Summary, bin: &Path, root: 
           match kind.as_str() {
             "http_add" => {
               let body: String = raw_docs.iter().map(|d| format!("{d}\n")).collect();
-              simple(port, "POST", "/add", Some("application/x-ndjson"), body.as_bytes()).status == Some(200)
+              http_ok(port, simple(port, "POST", "/add", Some("application/x-ndjson"), body.as_bytes()))
             }
-            "http_bulk" => post_json(port, "/bulk", &json!({"docs": raw_docs})).status == Some(200),
-            "http_delete" => post_json(port, "/delete", &json!({"ids": fop["ids"]})).status == Some(200),
-            "http_commit" => simple(port, "POST", "/commit", None, b"").status == Some(200),
-            "http_compact" => simple(port, "POST", "/compact", None, b"").status == Some(200),
+            "http_bulk" => http_ok(port, post_json(port, "/bulk", &json!({"docs": raw_docs}))),
+            "http_delete" => http_ok(port, post_json(port, "/delete", &json!({"ids": fop["ids"]}))),
+            "http_commit" => http_ok(port, simple(port, "POST", "/commit", None, b"")),
+            "http_compact" => http_ok(port, simple(port, "POST", "/compact", None, b"")),
             _ => true,
           }
         }
@@ -1193,7 +1204,7 @@ fn run_mixed(drv: &mut Driver, case: &Value, s: &mut Summary, bin: &Path, root: 
       s.count(&format!("mixed.op.{kind}.{}", if front_ok { "ok" } else { "rejected" }));
       let mut nontrivial = !front_ok;
       if front_ok != twin_res.is_ok() {
-        s.fail(&format!("outcome.mixed.{kind}"), "the front-end operation and the equivalent library calls disagree on success/failure (shared directory)", &sub, json!({"front_ok": front_ok, "library": format!("{twin_res:?}")}));
+        s.fail(&format!("outcome.mixed.{kind}"), "the front-end operation and the equivalent library calls disagree on success/failure (shared directory)", &sub, json!({"front_ok": front_ok, "front_said": note.borrow().clone(), "library": format!("{twin_res:?}")}));
         return;
       }
       if matches!(kind.as_str(), "cli_commit" | "http_commit" | "ffi_add" | "cli_compact" | "http_compact") {
